@@ -8,7 +8,7 @@
      TABLE = ((#KEY #uncompressed) ...), KEY = codec byte followed by the compressed bytes, instantiates `decompress` (phase 2; trusted: cramjam)
      STRICT = 1: a bit-packed run must be present in full; 0: only the bytes of the values needed. *)
 From Coq Require Import NArith ZArith List String Ascii Bool.
-From Pq Require Import Base.Bytes Base.ListX Extract.Sx Thrift.Compact Codec.Hybrid Format.Phys Format.Meta Format.Page Format.File Format.Enc Impl.RPages Impl.RChunk.
+From Pq Require Import Base.Bytes Base.ListX Extract.Sx Thrift.Compact Codec.Hybrid Format.Phys Format.Meta Format.Page Format.File Format.Enc Impl.RPages Impl.RChunk Impl.WPagesFmt.
 From Pq Require Extract.Cmd_Thrift.
 Import ListNotations.
 Open Scope string_scope.
@@ -222,6 +222,25 @@ Definition h_fmt_rd_chunk (a : list sx) : sx :=
   | _ => err "arity"
   end.
 
+(* impl model of the PLAIN page payload write_column emits (Impl/WPagesFmt.v)
+     (fmt_fp_page V2 OPTIONAL TYPE TLEN (CELL ...)) -> (ok #payload)        CELL = () | number | #bytes *)
+Definition as_cell (s : sx) : option (option value) :=
+  match s with SL [] => Some None | _ => option_map Some (as_value s) end.
+
+Definition h_fmt_fp_page (a : list sx) : sx :=
+  match a with
+  | [v2; op; ty; tl; cells] =>
+    match as_bool v2, as_bool op, as_Z ty, as_N tl, Sx.as_list_of as_cell cells with
+    | Some v2, Some op, Some ty, Some tl, Some cells =>
+      match ptype_of_id ty with
+      | Some t => SL [S_ "ok"; SB (fp_plain_payload v2 op t tl cells)]
+      | None => err "args"
+      end
+    | _, _, _, _, _ => err "args"
+    end
+  | _ => err "arity"
+  end.
+
 Definition table : list (string * handler) :=
-  [("fmt_rd_chunk", h_fmt_rd_chunk); ("fmt_rd_data_page", h_fmt_rd_data_page); ("fmt_pages", h_fmt_pages); ("fmt_validate", h_fmt_validate); ("fmt_decode", h_fmt_decode);
+  [("fmt_fp_page", h_fmt_fp_page); ("fmt_rd_chunk", h_fmt_rd_chunk); ("fmt_rd_data_page", h_fmt_rd_data_page); ("fmt_pages", h_fmt_pages); ("fmt_validate", h_fmt_validate); ("fmt_decode", h_fmt_decode);
    ("fmt_payloads", h_fmt_payloads); ("fmt_encode", h_fmt_encode); ("fmt_table", h_fmt_table)].
